@@ -791,6 +791,11 @@ def alias_cases(ffs=("AMBER",), names=None):
                 if canon in tmpl.atoms and alt not in tmpl.atoms:
                     al.setdefault(canon, []).append(alt)
             for canon, alts in sorted(al.items()):
+                if T.base_of(x) == "PRO" and pos == "n" and \
+                        canon in ("H", "H2", "H3"):
+                    # the imino nitrogen of an N-terminal proline does not
+                    # carry the hydrogens the generic terminus patch lists
+                    continue
                 for alt in alts:
                     if len(alt) > 4:
                         continue
